@@ -119,6 +119,15 @@ SameProjection(S, e) ==
   /\ \A i \in DOMAIN e.isrem : e.isrem[i][2] = (IF IsRemovedTok(S, e.isrem[i][1]) THEN 1 ELSE 0)
   /\ e.cap >= S.capLow
 
+\* what is wrong after a run of silently executed remove/new_node cycles of one lone node
+InjectMismatch(T, e) ==
+  (IF e.count = T.count /\ Rng(e.live) = T.live THEN {} ELSE {"C07:fast-forward-live"}) \cup
+  (IF e.count = T.count /\ (\A s \in 1..T.count : e.links[s] = LinkTuples(T)[s]) THEN {} ELSE {"C12:fast-forward-links"}) \cup
+  (IF e.count = T.count /\ (\A s \in 1..T.count : e.val[s] = T.val[s]) THEN {} ELSE {"C08:fast-forward-payload"}) \cup
+  (IF Rng(e.drain) = Rng(T.avail) /\ Len(e.drain) = Len(T.avail) THEN {} ELSE {"C07:fast-forward-free-set"}) \cup
+  (IF \A i \in DOMAIN e.isrem : e.isrem[i][2] = (IF IsRemovedTok(T, e.isrem[i][1]) THEN 1 ELSE 0) THEN {} ELSE {"C06:is_removed"}) \cup
+  {"C05:fast-forward"}      \* in any case valid calls left a state the specification does not have
+
 SoftClauses == {"C12:removed-links"}
 
 Stop(what) == /\ bad' = <<l, what, Rec[l]>>
@@ -145,7 +154,7 @@ TNext ==
              /\ UNCHANGED <<count, live, f, avail, retired, val, capLow>>
              /\ path' = <<[op |-> "inject"]>> /\ last' = [NoResult EXCEPT !.drops = {e.a}]
              /\ l' = l + 1 /\ bad' = bad
-        ELSE Stop({"TRACE:injection"})
+        ELSE Stop(IF e.a \notin S.live THEN {"TRACE:injection"} ELSE InjectMismatch(T, e))
      ELSE IF IsIdentity(e) THEN
         \* a clone / deserialised copy does not inherit reserved capacity: only count() is guaranteed
         IF SameProjection([S EXCEPT !.capLow = IF e.op = "observe" THEN @ ELSE S.count], e) /\ ObsMatches(S, e)
